@@ -50,14 +50,15 @@ def parseAttr (kv : String) : Option (String × AVal) :=
       | 'm' => if body.isEmpty then some .kvl else none
       | 'y' => if body.isEmpty then some .bytes else none
       | 'z' => if body.isEmpty then some .empty else none
+      | 'n' => if body.isEmpty then some .noValue else none
       | _ => none
     match val? with
     | none => none
     | some val =>
       -- a key that collides with a fixed field must carry a value of that field's type (anything else is outside the model)
       if reservedKeys.contains key then none
-      else if strKeys.contains key then (match val with | .str _ => some (key, val) | .bytes => some (key, val) | .empty => some (key, val) | _ => none)
-      else if numKeys.contains key then (match val with | .int i => if i ≥ 0 then some (key, val) else none | .bytes => some (key, val) | .empty => some (key, val) | _ => none)
+      else if strKeys.contains key then (match val with | .str _ => some (key, val) | .bytes => some (key, val) | .empty => some (key, val) | .noValue => some (key, val) | _ => none)
+      else if numKeys.contains key then (match val with | .int i => if i ≥ 0 then some (key, val) else none | .bytes => some (key, val) | .empty => some (key, val) | .noValue => some (key, val) | _ => none)
       else some (key, val)
   | _ => none
 
@@ -153,9 +154,9 @@ def showRec (r : Rec) : String :=
 
 def showAck (a : Nat × Int) : String := s!"{a.1}/{a.2}"
 
-def ackOfReq : Req → Nat × Int
-  | .otlp rs => ack (ingest rs)
-  | .raw _ => (200, 0)
+def ackOfReq : Req → String
+  | .otlp rs => if reqPanics rs then "panic" else showAck (ack (ingest rs))
+  | .raw _ => showAck (200, 0)
 
 def b01 (b : Bool) : String := if b then "1" else "0"
 
@@ -190,7 +191,7 @@ def showRed (rows : List (String × RedRow)) : String :=
 
 def answer (page pick : Nat) (reqs : List Req) : String :=
   let recs := records reqs
-  let acks := ",".intercalate (reqs.map (fun r => showAck (ackOfReq r)))
+  let acks := ",".intercalate (reqs.map ackOfReq)
   let evs := isort (fun a b => decide (a ≤ b)) (recs.map showRec)
   let ev := if evs.isEmpty then "-" else ";".intercalate evs
   let gs := (traceIds recs).filter (· != "") |>.map (fun t => s!"g:{t}=" ++ showGantt (gantt page pick recs t))
